@@ -70,48 +70,19 @@ theorem C02_append_record (r : Record) (us : List Usage) :
     (appendUsage r us).subData = r.subData ∧ (appendUsage r us).cid = r.cid ∧ (appendUsage r us).nf = r.nf ∧
     (appendUsage r us).lsn = r.lsn := ⟨rfl, rfl, rfl, rfl, rfl, rfl⟩
 
-/-- a rejected request changes no record of anybody (corollary of C12) -/
+/-- a rejected request changes no record (nor the session map, nor the reservations) of anybody -/
 theorem C02_rejected_untouched (guard : SplitGuard) (s : State) (op : Op)
     (h4 : (step guard s op).2.status = 400 ∨ (step guard s op).2.status = 404) (supi : Bytes) :
+    ueView (step guard s op).1 supi = ueView s supi :=
+  (rejected_view guard s op h4).2.2.2 supi
+
+/-- … and unless it is a create refused by OpenCDR (which may leave an empty subscriber context behind) it changes
+    nothing at all -/
+theorem C02_rejected_context_untouched (guard : SplitGuard) (s : State) (op : Op)
+    (h4 : (step guard s op).2.status = 400 ∨ (step guard s op).2.status = 404)
+    (hnb : ∀ r, op = .create r → r.bad = false) (supi : Bytes) :
     findUe (step guard s op).1.ues supi = findUe s.ues supi := by
-  have : (step guard s op).1 = s := by
-    cases op with
-    | create r =>
-      simp only [step, create] at h4 ⊢
-      split
-      · rfl
-      · split
-        · rfl
-        · rename_i hnf hp; simp only [hnf, hp, if_false] at h4; simp at h4
-    | update sid r =>
-      simp only [step, update] at h4 ⊢
-      split
-      · rfl
-      · rename_i ue hu
-        split
-        · rfl
-        · rename_i idx hl; simp only [hu, hl] at h4; simp at h4
-    | release sid r =>
-      simp only [step, release] at h4 ⊢
-      split
-      · rfl
-      · rename_i ue hu
-        split
-        · rfl
-        · rename_i idx hl; simp only [hu, hl] at h4; simp at h4
-    | recharge info =>
-      simp only [step, recharge] at h4 ⊢
-      split
-      · rename_i ueId rgStr hsp
-        split
-        · rfl
-        · rename_i rg hp
-          split
-          · rfl
-          · rename_i ue hu; simp only [hsp, hp, hu] at h4; simp at h4
-      · rfl
-    | credit a b c => simp [step] at h4
-  rw [this]
+  rw [rejected_same guard s op h4 hnb]
 
 /-- a request of one subscriber never touches the records (or anything else) of another subscriber -/
 theorem C02_other_subscribers_untouched (guard : SplitGuard) (s : State) (op : Op) (supi : Bytes)
